@@ -8,12 +8,14 @@
 mod bind;
 mod engine;
 mod epipe;
+mod eval;
 mod expr;
 mod ftab;
 mod fifo;
 mod gen;
 mod p01;
 mod p02;
+mod p04;
 mod p05;
 mod p06;
 mod p07;
@@ -45,6 +47,7 @@ fn modules() -> Vec<Module> {
     vec![
         ("C01", p01::run_all, p01::checks),
         ("C02", p02::run_all, p02::checks),
+        ("C04", p04::run_all, p04::checks),
         ("C05", p05::run_all, p05::checks),
         ("C06", p06::run_all, p06::checks),
         ("C07", p07::run_all, p07::checks),
@@ -179,6 +182,8 @@ fn main() {
         }
         i += 1;
     }
+    // a variable the `env` function can find (reference and jawk run in this process)
+    std::env::set_var("JV_TEST_ENV", "jv env value \u{e9}");
     runner::install_panic_hook();
     if let Some(path) = replay {
         let all = all_checks();
